@@ -6,7 +6,7 @@
 (* "query" events carry criteria, range, the way the query was answered    *)
 (* and the result.  TLC computes LogFilter!BruteForce and judges.          *)
 (***************************************************************************)
-EXTENDS TraceLib, LogFilter
+EXTENDS TraceLib, LogFilter, BitCodec
 VARIABLES l, CH, X
 tvars == <<l, CH, X>>
 Ev == Trace[l]
@@ -18,7 +18,12 @@ TInit == l = 1 /\ CH = [e |-> "none"] /\ X = [e |-> "none"] /\ InitHW
 TChain == l <= NLines /\ Ev.e = "chain" /\ l' = l + 1 /\ Consumed(l) /\ X' = Ev
           /\ CH' = [chain |-> [n \in 1..Len(Ev.blocks) |-> Flat(Ev.blocks[n].receipts)], head |-> Ev.head]
 TQuery == l <= NLines /\ Ev.e = "query" /\ l' = l + 1 /\ Consumed(l) /\ X' = Ev /\ UNCHANGED CH
-TSpec == TInit /\ [][TChain \/ TQuery]_tvars
+TCodec == l <= NLines /\ Ev.e = "codec" /\ l' = l + 1 /\ Consumed(l) /\ X' = Ev /\ UNCHANGED CH
+TSpec == TInit /\ [][TChain \/ TQuery \/ TCodec]_tvars
+
+\* the compression of index vectors (BitCodec.tla): what was stored decompresses to the vector, and - for the short vectors the
+\* specification evaluates - is the encoding the specification defines
+CodecT == X.e = "codec" => (X.decOk /\ X.same /\ (X.small => (X.dec = X.data /\ X.enc = Compress(X.data))))
 
 IsChain == X.e = "chain"
 Bits == [i \in {X.items[k].item : k \in 1..Len(X.items)} |-> SetOf(X.items[CHOOSE k \in 1..Len(X.items) : X.items[k].item = i].bits)]
